@@ -83,6 +83,8 @@ def gen_case(rng: random.Random, k: int) -> dict:
         if all(i == -1 for i in used_idx) and rng.random() < 0.5:
             keys.append(0)
     mods = {k2: f"1.{j + 1}e-9 * zeta + {j + 1}.0" for j, k2 in enumerate(keys)}
+    if keys and k % 4 == 1:
+        mods[keys[0]] = rng.choice([0.0, 0])     # a NUMBER, not a text: "this reaction is switched off"
     return {"files": files, "declared": declared, "mods": mods}
 
 
@@ -227,7 +229,7 @@ def main(ctx: Ctx) -> int:
         if len(net.reaction_list) != len(case["declared"]):
             ctx.violation(f"{pid}|Read|count", f"{len(case['declared'])} data lines gave {len(net.reaction_list)} reactions", {"files": case["files"]})
             continue
-        modtext = {norm(v): k for k, v in case["mods"].items()}
+        modtext = {norm(str(v)): k for k, v in case["mods"].items()}
         for solver, method, tag in (("cvode", "dense", "dense"), ("cvode", "sparse", "sparse"), ("odeint", "rosenbrock4", "odeint")):
             out = ctx.scratch / "r" / f"{ci}_{tag}"
             tmpl = (["src/naunet_rates.cpp.j2", "src/naunet_fex.cpp.j2", "src/naunet_jac.cpp.j2"] if solver == "cvode" else ["src/naunet_ode.cpp.j2"])
